@@ -706,8 +706,8 @@ PROP = dict(
         "only inputs whose arithmetic is exact are used (DESIGN C06: dyadic grid for Rcb, 2^k integer points for Rib/Hilbert)",
         "FiducciaMattheyses iterates over HashSets: on success only code, array length, ids in {0,1}, untouched tail and "
         "`cut not worse` are compared, not the partition",
-        "the Type tag of a points data set is never read by the glue (finding candidate ffi-points-type-unchecked): cases that "
-        "announce points with another tag still hold doubles in memory; BAD_TYPE would be accepted as well",
+        "points must be announced as double (fix eb2545c): a points data set with another Type tag must give BAD_TYPE with the "
+        "array untouched (the memory of such cases still holds doubles, so nothing is undefined if the check were missing)",
     ],
 )
 
